@@ -84,6 +84,23 @@ def type_fields(ix: Index, c: ClassInfo) -> dict[str, str]:
     return out
 
 
+_PURE = {"tuple", "sorted", "list", "set", "frozenset", "dict", "len", "str", "int", "bool", "snapshot_type", "snapshot_types", "snapshot_optional_type", "encode_optional_str"}
+
+
+def _pure_call(x: ast.AST) -> bool:
+    return isinstance(x, ast.Call) and isinstance(x.func, ast.Name) and x.func.id in _PURE
+
+
+def _walk_skipping(root: ast.AST, skip: set[int]):
+    todo = [root]
+    while todo:
+        n = todo.pop()
+        if id(n) in skip:
+            continue
+        yield n
+        todo.extend(ast.iter_child_nodes(n))
+
+
 def reads_of_param(ix: Index, f: FuncInfo, depth: int = 0, param_index: int = 1, seen=None) -> set[str]:
     """Attributes of the visited object read by a visit method, following same-class helpers the
     parameter is passed to and base-class methods reached through super()."""
@@ -97,12 +114,29 @@ def reads_of_param(ix: Index, f: FuncInfo, depth: int = 0, param_index: int = 1,
     p = params[param_index]
     out = set()
     aliases = {p}
-    for n in ast.walk(f.node):
+    # dead stores: `x = <expr>` whose local x is never loaded afterwards is not a use of what <expr> reads
+    dead: set[int] = set()
+    while True:
+        loads: dict[str, int] = {}
+        for n in _walk_skipping(f.node, dead):
+            if isinstance(n, ast.Name) and isinstance(n.ctx, ast.Load):
+                loads[n.id] = loads.get(n.id, 0) + 1
+        more = False
+        for n in _walk_skipping(f.node, dead):
+            if isinstance(n, (ast.Assign, ast.AnnAssign)) and id(n) not in dead:
+                tgts = n.targets if isinstance(n, ast.Assign) else [n.target]
+                if len(tgts) == 1 and isinstance(tgts[0], ast.Name) and not loads.get(tgts[0].id) and n.value is not None and not any(isinstance(x, (ast.Call, ast.Yield, ast.Await, ast.NamedExpr)) and not _pure_call(x) for x in ast.walk(n.value)):
+                    dead.add(id(n))
+                    more = True
+        if not more:
+            break
+    live_nodes = list(_walk_skipping(f.node, dead))
+    for n in live_nodes:
         if isinstance(n, ast.Assign) and isinstance(n.value, ast.Name) and n.value.id in aliases:
             for t in n.targets:
                 if isinstance(t, ast.Name):
                     aliases.add(t.id)
-    for n in ast.walk(f.node):
+    for n in live_nodes:
         if isinstance(n, ast.Attribute) and isinstance(n.value, ast.Name) and n.value.id in aliases:
             out.add(n.attr)
         if isinstance(n, ast.Call):
